@@ -214,6 +214,14 @@ pub fn build<Data: GarnishData>(parse_root: usize, parse_tree: Vec<ParseNode>, d
                 None => Err(CompilerError::new_message(format!("No parse node at index {}", node_index)))?,
             };
 
+            // an else jump continues a conditional, with anything else on its left both sides would be evaluated and left pending
+            if parse_node.get_definition() == Definition::ElseJump {
+                match parse_node.get_left().and_then(|left| parse_tree.get(left)) {
+                    Some(left) if left.get_definition().is_conditional() => {}
+                    _ => Err(CompilerError::new_message("ElseJump must have a conditional on its left".to_string()))?,
+                }
+            }
+
             handle_parse_node(
                 data,
                 &mut nodes,
